@@ -259,30 +259,14 @@ package gohlslib
 //@   ensures storage.fileOpen(old(s.nextPart.segment).storage) && handlersOK(s.server)
 //@ end
 
-//@ func Muxer.rotatePartsInner
-//@   props WIP
-//@   role writer
-//@   nosafety
-//@   requires held(&m.mutex) && muxerLinks(m) && m.leadingStream != nil && m.leadingStream.mutex == &m.mutex
-//@   modifies muxerStream.nextPartID, muxerStream.nextPart, muxerStream.partTargetDuration, muxerStream.nextSegmentID, muxerStream.nextSegment, muxerStream.segments
-//@   modifies muxerStream.segmentDeleteCount, muxerStream.initFilePresent, muxerStream.targetDuration, muxerPart.endDTS, muxerTrack.fmp4Samples
-//@   modifies muxerSegmentFMP4.parts, muxerSegmentFMP4.endDTS, muxerSegmentMPEGTS.endDTS, muxerSegmentMPEGTS.bw, switchableWriter.w, muxerServer.pathHandlers
-//@ end
 
-//@ func Muxer.rotateSegmentsInner
-//@   props WIP
-//@   role writer
-//@   nosafety
-//@   requires held(&m.mutex) && muxerLinks(m) && m.leadingStream != nil && m.leadingStream.mutex == &m.mutex
-//@   modifies muxerStream.nextPartID, muxerStream.nextPart, muxerStream.partTargetDuration, muxerStream.nextSegmentID, muxerStream.nextSegment, muxerStream.segments
-//@   modifies muxerStream.segmentDeleteCount, muxerStream.initFilePresent, muxerStream.targetDuration, muxerPart.endDTS, muxerTrack.fmp4Samples
-//@   modifies muxerSegmentFMP4.parts, muxerSegmentFMP4.endDTS, muxerSegmentMPEGTS.endDTS, muxerSegmentMPEGTS.bw, switchableWriter.w, muxerServer.pathHandlers
-//@ end
+
+
 
 //@ func Muxer.rotateParts
 //@   props C06 C07 C08
 //@   role writer
-//@   requires nolocks() && muxerLinks(m) && m.leadingStream != nil && m.leadingStream.mutex == &m.mutex
+//@   requires nolocks() && streamsOK(m) && oneLeader(m) && m.leadingStream != nil && m.leadingStream.mutex == &m.mutex
 //@   modifies muxerStream.nextPartID, muxerStream.nextPart, muxerStream.partTargetDuration, muxerStream.nextSegmentID, muxerStream.nextSegment, muxerStream.segments
 //@   modifies muxerStream.segmentDeleteCount, muxerStream.initFilePresent, muxerStream.targetDuration, muxerPart.endDTS, muxerTrack.fmp4Samples
 //@   modifies muxerSegmentFMP4.parts, muxerSegmentFMP4.endDTS, muxerSegmentMPEGTS.endDTS, muxerSegmentMPEGTS.bw, switchableWriter.w, muxerServer.pathHandlers
@@ -292,7 +276,7 @@ package gohlslib
 //@ func Muxer.rotateSegments
 //@   props C06 C07 C08
 //@   role writer
-//@   requires nolocks() && muxerLinks(m) && m.leadingStream != nil && m.leadingStream.mutex == &m.mutex
+//@   requires nolocks() && streamsOK(m) && oneLeader(m) && m.leadingStream != nil && m.leadingStream.mutex == &m.mutex
 //@   modifies muxerStream.nextPartID, muxerStream.nextPart, muxerStream.partTargetDuration, muxerStream.nextSegmentID, muxerStream.nextSegment, muxerStream.segments
 //@   modifies muxerStream.segmentDeleteCount, muxerStream.initFilePresent, muxerStream.targetDuration, muxerPart.endDTS, muxerTrack.fmp4Samples
 //@   modifies muxerSegmentFMP4.parts, muxerSegmentFMP4.endDTS, muxerSegmentMPEGTS.endDTS, muxerSegmentMPEGTS.bw, switchableWriter.w, muxerServer.pathHandlers
@@ -669,7 +653,7 @@ package gohlslib
 //@        && asF(t.stream.nextSegment).size <= t.stream.nextPart.segmentMaxSize))
 
 //@ pred parentOK(s *muxerSegmenter, t *muxerTrack) := s.parent != nil && is(s.parent, *Muxer) && ref(s.parent) != 0
-//@   && streamsOK(s.parent.(*Muxer)) && s.parent.(*Muxer).leadingStream != nil && s.parent.(*Muxer).leadingStream.mutex == &s.parent.(*Muxer).mutex
+//@   && streamsOK(s.parent.(*Muxer)) && oneLeader(s.parent.(*Muxer)) && s.parent.(*Muxer).leadingStream != nil && s.parent.(*Muxer).leadingStream.mutex == &s.parent.(*Muxer).mutex
 //@   && exists(i, 0 <= i && i < len(s.parent.(*Muxer).streams) && s.parent.(*Muxer).streams[i] == t.stream)
 //@   && forall(i, (0 <= i && i < len(s.parent.(*Muxer).streams)) ==> (cfg(s.parent.(*Muxer).streams[i])
 //@        && ((s.parent.(*Muxer).streams[i].nextSegment == nil) == (t.stream.nextSegment == nil))))
@@ -963,4 +947,50 @@ package gohlslib
 //@ func checkSupport
 //@   props C09 C13
 //@   loop 1 invariant ri < len(codecs)
+//@ end
+
+
+// ---------------------------------------------------------------------------------------
+// C02 / C04: every stream is rotated exactly once per rotation, with the same instant
+// (lidx(m) is the ghost index of the leading stream)
+
+//@ ufun lidx(m *Muxer) int
+//@ pred oneLeader(m *Muxer) := 0 <= lidx(m) && lidx(m) < len(m.streams) && m.streams[lidx(m)] == m.leadingStream
+//@   && forall(i, (0 <= i && i < len(m.streams)) ==> (m.streams[i].isLeading == (i == lidx(m))))
+//@ pred rotPos(m *Muxer, i int) int := ite(i < lidx(m), i + 1, ite(i == lidx(m), 0, i))
+
+//@ func Muxer.rotateSegmentsInner
+//@   props C02 C04 C06 C08
+//@   role writer
+//@   nosafety
+//@   nocallpre
+//@   requires held(&m.mutex) && streamsOK(m) && oneLeader(m)
+//@   modifies muxerStream.nextPartID, muxerStream.nextPart, muxerStream.partTargetDuration, muxerStream.nextSegmentID, muxerStream.nextSegment, muxerStream.segments
+//@   modifies muxerStream.segmentDeleteCount, muxerStream.initFilePresent, muxerStream.targetDuration, muxerPart.endDTS, muxerTrack.fmp4Samples
+//@   modifies muxerSegmentFMP4.parts, muxerSegmentFMP4.endDTS, muxerSegmentMPEGTS.endDTS, muxerSegmentMPEGTS.bw, switchableWriter.w, muxerServer.pathHandlers
+//@   ensures result == nil ==> calls("muxerStream.rotateSegments") == len(m.streams)
+//@   ensures result == nil ==> forall(i, (0 <= i && i < len(m.streams)) ==> (callarg("muxerStream.rotateSegments", rotPos(m, i), 0) == m.streams[i]
+//@        && callarg("muxerStream.rotateSegments", rotPos(m, i), 1) == nextDTS && callarg("muxerStream.rotateSegments", rotPos(m, i), 2) == nextNTP
+//@        && callarg("muxerStream.rotateSegments", rotPos(m, i), 3) == force))
+//@   loop 1 invariant ri < len(m.streams) && streamsOK(m) && oneLeader(m) && calls("muxerStream.rotateSegments") == 1 + (ri + 1) - ite(lidx(m) <= ri, 1, 0)
+//@   loop 1 invariant forall(i, (0 <= i && i < len(m.streams) && (i <= ri || i == lidx(m))) ==> (callarg("muxerStream.rotateSegments", rotPos(m, i), 0) == m.streams[i]
+//@        && callarg("muxerStream.rotateSegments", rotPos(m, i), 1) == nextDTS && callarg("muxerStream.rotateSegments", rotPos(m, i), 2) == nextNTP
+//@        && callarg("muxerStream.rotateSegments", rotPos(m, i), 3) == force))
+//@ end
+
+//@ func Muxer.rotatePartsInner
+//@   props C03 C04 C06 C08
+//@   role writer
+//@   nosafety
+//@   nocallpre
+//@   requires held(&m.mutex) && streamsOK(m) && oneLeader(m)
+//@   modifies muxerStream.nextPartID, muxerStream.nextPart, muxerStream.partTargetDuration, muxerStream.nextSegmentID, muxerStream.nextSegment, muxerStream.segments
+//@   modifies muxerStream.segmentDeleteCount, muxerStream.initFilePresent, muxerStream.targetDuration, muxerPart.endDTS, muxerTrack.fmp4Samples
+//@   modifies muxerSegmentFMP4.parts, muxerSegmentFMP4.endDTS, muxerSegmentMPEGTS.endDTS, muxerSegmentMPEGTS.bw, switchableWriter.w, muxerServer.pathHandlers
+//@   ensures result == nil ==> calls("muxerStream.rotateParts") == len(m.streams)
+//@   ensures result == nil ==> forall(i, (0 <= i && i < len(m.streams)) ==> (callarg("muxerStream.rotateParts", rotPos(m, i), 0) == m.streams[i]
+//@        && callarg("muxerStream.rotateParts", rotPos(m, i), 1) == nextDTS && callarg("muxerStream.rotateParts", rotPos(m, i), 2) == 1))
+//@   loop 1 invariant ri < len(m.streams) && streamsOK(m) && oneLeader(m) && calls("muxerStream.rotateParts") == 1 + (ri + 1) - ite(lidx(m) <= ri, 1, 0)
+//@   loop 1 invariant forall(i, (0 <= i && i < len(m.streams) && (i <= ri || i == lidx(m))) ==> (callarg("muxerStream.rotateParts", rotPos(m, i), 0) == m.streams[i]
+//@        && callarg("muxerStream.rotateParts", rotPos(m, i), 1) == nextDTS && callarg("muxerStream.rotateParts", rotPos(m, i), 2) == 1))
 //@ end
